@@ -21,6 +21,24 @@ CHECKS = {
  "C05": dict(cat="exploration", engine="model-sweep", technique="bounded exhaustive enumeration of assumption lists and solve histories, brute-force oracle for results and cores",
    text="All assumption lists up to length 2 (3 thorough) over a predicate alphabet incl. out-of-domain and hole values, with and without (double) core extraction, followed by a plain satisfy; plus 2-step assumption histories on one solver. Solutions satisfy model+assumptions, unsat-under-assumptions only if truly so, cores are implied by the assumptions and inconsistent with the model, assumptions are not retained.",
    note="own definition of a directly contradictory pair (no integer satisfies both)", ref="DESIGN.md §4 C05"),
+ "C06": dict(cat="exploration", engine="proof-checker", technique="bounded exhaustive enumeration of proof-producing runs, each proof checked by an independent DRCP checker (exhaustive semantic check of inferences, reverse constraint propagation for nogoods)",
+   text="Strides of M1/M3/M4 x {satisfy, min/max with both procedures} x {scaffold, full, hinted} x minimisation on/off x 2 branchers with named variables and one tag per constraint; own .drcp/.lits parsers; every tagged inference follows from the single reference constraint by exhaustion; untagged inferences from one constraint / earlier nogood / domains (objective cuts admitted only at incumbent values); every nogood is RCP-derivable and entailed by the reference solutions; UNSAT preceded by the empty nogood; optimality conclusion is the true dual bound.",
+   note="scaffold proofs of LinearSatUnsat runs do not contain the objective cuts, so their nogoods are only checked structurally", ref="DESIGN.md §4 C06"),
+ "C13": dict(cat="exploration", engine="fzn-cli", technique="grammar-bounded exhaustive enumeration of FlatZinc texts run through the real binary, independent evaluator of the builtins",
+   text="Every handled constraint name (110+ instantiations), single and paired, x goals x flags (-a, -f, optimisation strategy), declaration variants (aliases, fixed values, set domains, arrays, parameters), search annotations; the printed blocks are compared with a brute-force evaluation of the standard FlatZinc semantics.",
+   note="constructs for which the front end has todo!() are not generated", ref="DESIGN.md §4 C13"),
+ "C14": dict(cat="fault_enumeration", engine="dimacs", technique="exhaustive enumeration of small CNF formulas x file layouts (deviation-bounded) x all 1-/2-cut chunkings of the byte stream (short reads) on the repository's own parser; CLI end-to-end with own RUP checker",
+   text="All formulas within the bounds as ordered literal sequences; every layout with <=2 non-default separators, prefixes/suffixes; every 1- and 2-cut chunking for layouts with <=1 deviation must parse to exactly the formula; verdict and model vs brute force; CLI proofs checked by a forward RUP checker.",
+   note="headers spelled canonically; parsers/dimacs.rs is compiled into the harness via #[path]", ref="DESIGN.md §4 C14"),
+ "C15": dict(cat="exploration", engine="wcnf-cli", technique="bounded exhaustive enumeration of WCNF instances x both encodings x seeds through the real binary, brute-force optimum",
+   text="WCNF instances over <=3 variables (hard parts incl. unsatisfiable, unit/empty/duplicate/complementary/root-decided soft clauses, several weights) x 2 encodings x 2 seeds: s/o/v lines vs brute force; encodings agree; termination within 2 s.",
+   note="cardinality-network encoding has open known findings on weighted instances", ref="DESIGN.md §4 C15"),
+ "C19": dict(cat="exploration", engine="drcp-roundtrip", technique="bounded exhaustive enumeration of step sequences / literal definitions / atomics, structural comparison after write->read",
+   text="All step sequences up to length 2 (3) over a 50-step alphabet x conclusions, literal definition files over an alphabet of 90 atomics, double negation of every atomic.",
+   note="text format only (binary writer is todo!())", ref="DESIGN.md §4 C19"),
+ "C20": dict(cat="exploration", engine="twin-run", technique="bounded enumeration of (input, options, seed); each executed twice (library: same process; CLI: two fresh processes) and compared byte for byte",
+   text="Library runs (iteration / satisfy / optimise with full or hinted proofs) and CLI runs (CNF, WCNF, FlatZinc with statistics and proofs) are executed twice; solution sequences, counters, stdout and proof/.lits bytes must be identical.",
+   note="hash keys and wall clock are not enumerable: two independent executions per case", ref="DESIGN.md §4 C20"),
  "C07": dict(cat="exploration", engine="config-product", technique="full product of solver options x branchers on conflict-rich models, brute-force reference",
    text="All 186 valid option combinations x branchers x conflict-rich models: verdict, complete solution set and optimum each equal the reference; counters show how often restarts, deletion, id reuse, no-learning backtracking actually fired.",
    note="finite option alphabets chosen to make each mechanism fire on small models", ref="DESIGN.md §4 C07"),
